@@ -78,7 +78,7 @@ func RunWorker(prop, hname, tier string, caseIdx int, outDir string, verbose boo
 		res.Error = "no tier " + tier
 		return res
 	}
-	l, err := Load(h, hdir)
+	l, err := Load(h, hdir, filepath.Join(outDir, fmt.Sprintf("gomod-%s-c%d", hname, caseIdx)))
 	if err != nil {
 		res.Error = "load: " + err.Error()
 		return res
